@@ -26,6 +26,13 @@ CATALOGUE = [
     {'zz': {'A': 8.0, 'G': 1.0}, 'aa': {'A': 8.0, 'G': 1.0},
      'mm': {'A': 2.0, 'G': 7.0}, 'kk': {'A': 0.0, 'G': 0.0}},
     {'only': {'A': 3.0, 'G': 4.0}},
+    # large loads that differ by one unit (not representable in float32)
+    {**{f'h{i}': {'A': 2.0 ** 24 + i, 'G': float(i % 2)} for i in range(10)},
+     't0': {'A': 1.0, 'G': 0.0}, 't1': {'A': 0.0, 'G': 1.0}},
+    # cubic costs of realistic layer widths
+    {**{f'c{i}': {'A': float(n) ** 3, 'G': float(n + 1) ** 3}
+        for i, n in enumerate((6144, 6145, 6144, 24576, 6146, 1024, 6144))},
+     'tail': {'A': 7.0, 'G': 0.0}},
 ]
 
 
@@ -177,7 +184,7 @@ def main(run: core.Run):
     run.rule = (
         f'every (pipe, data, model) in {{1..{mx}}}^3 x every local rank x '
         'every cost dictionary with <=3 layers over costs {0,1,2} (all of '
-        'them for worlds <= 12, every 7th above) plus a tie-heavy '
+        'them for worlds <= 12, every 7th above) plus a tie-heavy and large-cost (2^24+i, n^3) '
         'catalogue; one real GPTNeoXAssignment per rank in a simulated '
         'world that records new_group; checked against coordinate '
         'arithmetic (rank = (pipe*D+data)*M+model) and a brute-force '
